@@ -607,13 +607,23 @@ static Token *subst(Token *tok, MacroArg *args, bool is_objlike) {
         error_tok(tok->next, "'##' cannot appear at end of macro expansion");
 
       if (arg->tok->kind == TK_EOF) {
+        // The left operand is a placemarker, so the result is the right
+        // operand. If that is an empty argument as well and another ##
+        // follows, the result is a placemarker again and the same holds
+        // for the next operand (`x ## y ## z` with x and y empty is z).
+        MacroArg *arg2 = find_arg(args, rhs);
+        while (arg2 && arg2->tok->kind == TK_EOF && equal(rhs->next, "##") &&
+               rhs->next->next->kind != TK_EOF) {
+          rhs = rhs->next->next;
+          arg2 = find_arg(args, rhs);
+        }
+
         // Placemarker ## #param is the stringized parameter.
         if (equal(rhs, "#")) {
           tok = rhs;
           continue;
         }
 
-        MacroArg *arg2 = find_arg(args, rhs);
         if (arg2) {
           for (Token *t = arg2->tok; t->kind != TK_EOF; t = t->next)
             cur = cur->next = copy_token(t);
